@@ -48,82 +48,68 @@ theorem irOf_frame {g g' : G} (hf : ForestInv g)
   rw [(hfr x hx).2]
   cases g.kind x <;> first | rfl | exact e1 | exact e2 | exact e3 | exact e4
 
-/-! ### the symbol indexes through the load
+/-! ### state predicates carried through the load
 
-`IndexInv` is carried through every step of the decoder; the forest invariant each step needs
-(`idx_st_alloc`: the fresh id is linked nowhere; `IdxSide`) comes from the invariant `Mid` of the
-middle of a load, which the lemmas of `LoaderProofs.lean` provide at every intermediate state. -/
+A predicate `P` on states that is kept by each elementary step of the decoder (`LoadInv`; `S`: the symbol
+messages the step `Symbol._from_protobuf` may be run on) holds after
+`load` (`load_keeps`). The forest facts a step may need come from the invariant `Mid` of the middle of a load,
+which the lemmas of `LoaderProofs.lean` provide at every intermediate state. Used for `IndexInv` here and for
+the referents of symbols in `C09Identity.lean`. -/
 
-theorem idx_of_oc {g g' : G} (h : IdxOC g g') (hi : IndexInv g) : IndexInv g' := by
-  obtain ⟨c, rfl⟩ := h
-  exact ⟨hi.name_iff, hi.ref_iff, hi.name_nodup, hi.ref_nodup⟩
+/-- `P` is kept by every elementary step of the loader (`g0`: the state before the load) -/
+structure LoadInv (g0 : G) (S : SkSymbol → Prop) (P : G → Prop) : Prop where
+  /-- `Node.__init__` of a fresh non-symbol node -/
+  onAlloc : ∀ g k u, Mid g0 g → k ≠ .symbol → P g → P (alloc g k u).1
+  /-- writes to the UUID table only -/
+  onCache : ∀ g g', IdxOC g g' → P g → P g'
+  /-- `SetWrapper.add` of a decoded child -/
+  onSetAdd : ∀ g g' p s v, Mid g0 g → slotOf (g.kind v) = some s → P g → setAdd g p s v = .ok g' → P g'
+  onBlkUpdate : ∀ g g' p vs, Mid g0 g → P g → blkUpdate g p vs = .ok g' → P g'
+  onModAppend : ∀ g g' v, Mid g0 g → P g → modAppend g g0.n v = .ok g' → P g'
+  /-- `Symbol._from_protobuf`, for the symbol messages `S` of the file -/
+  onSymbol : ∀ g x g' v, S x → Mid g0 g → P g → decodeSymbol g g0.n x = .ok (g', v) → P g'
 
-theorem idxSt_of {g : G} (hf : ForestInv g) (hi : IndexInv g) : IdxSt g.kind g :=
-  ⟨hi, idx_side_of_forest hf, rfl⟩
+theorem LoadInv.alloc_reg {g0 : G} {S : SkSymbol → Prop} {P : G → Prop} (L : LoadInv g0 S P) {g : G} (hm : Mid g0 g) (hp : P g) (k : Kind)
+    (hk : k ≠ .symbol) (u i : Nat) : P (cacheSet (alloc g k u).1 i u g.n) :=
+  L.onCache _ _ (idx_oc_cacheSet _ _ _ _) (L.onAlloc g k u hm hk hp)
 
-theorem idx_alloc_reg {g : G} (hf : ForestInv g) (hi : IndexInv g) (k : Kind) (u i : Nat) :
-    IndexInv (cacheSet (alloc g k u).1 i u g.n) :=
-  idx_of_oc (idx_oc_cacheSet _ _ _ _) (idx_st_alloc_plain hf hi k u).1
-
-theorem decodeBlock_idx {g g' : G} {i : Nat} {b : Nat × Bool} {v : Nat} (hf : ForestInv g) (hi : IndexInv g)
-    (h : decodeBlock g i b = .ok (g', v)) : IndexInv g' := by
+theorem decodeBlock_keeps {g0 : G} {S : SkSymbol → Prop} {P : G → Prop} (L : LoadInv g0 S P) {g g' : G} {i : Nat} {b : Nat × Bool} {v : Nat}
+    (hm : Mid g0 g) (hp : P g) (h : decodeBlock g i b = .ok (g', v)) : P g' := by
   unfold decodeBlock at h
   split at h
   · cases h
   · rename_i g1 v1 fresh hfp
     rcases fromProto_cases hfp with ⟨rfl, rfl, _, _⟩ | ⟨rfl, rfl, rfl, _⟩
     · simp only [Bool.false_eq_true, if_false] at h
-      cases h; exact hi
+      cases h; exact hp
     · simp only [if_true] at h
       cases h
-      exact idx_alloc_reg hf hi _ _ _
+      exact L.alloc_reg hm hp (if b.2 = true then Kind.code else Kind.data) (by cases b.2 <;> simp) _ _
 
-theorem decodeProxy_idx {g g' : G} {i u v : Nat} (hf : ForestInv g) (hi : IndexInv g)
-    (h : decodeProxy g i u = .ok (g', v)) : IndexInv g' := by
+theorem decodeProxy_keeps {g0 : G} {S : SkSymbol → Prop} {P : G → Prop} (L : LoadInv g0 S P) {g g' : G} {i u v : Nat}
+    (hm : Mid g0 g) (hp : P g) (h : decodeProxy g i u = .ok (g', v)) : P g' := by
   unfold decodeProxy at h
   split at h
   · cases h
   · rename_i g1 v1 fresh hfp
     rcases fromProto_cases hfp with ⟨rfl, rfl, _, _⟩ | ⟨rfl, rfl, rfl, _⟩
     · simp only [Bool.false_eq_true, if_false] at h
-      cases h; exact hi
+      cases h; exact hp
     · simp only [if_true] at h
       cases h
-      exact idx_alloc_reg hf hi _ _ _
-
-/-- `Symbol._from_protobuf`: name and payload of the fresh, still detached symbol are written directly;
-no index can contain it yet -/
-theorem decodeSymbol_idx {g g' : G} {i : Nat} {x : SkSymbol} {v : Nat} (hf : ForestInv g) (hi : IndexInv g)
-    (h : decodeSymbol g i x = .ok (g', v)) : IndexInv g' := by
-  unfold decodeSymbol at h
-  split at h
-  · cases h
-  · rename_i g1 v1 fresh hfp
-    rcases fromProto_cases hfp with ⟨rfl, rfl, _, _⟩ | ⟨rfl, rfl, rfl, _⟩
-    · simp only [Bool.not_false, if_true] at h
-      cases h; exact hi
-    · simp only [Bool.not_true, Bool.false_eq_true, if_false] at h
-      split at h
-      · cases h
-      · rename_i pl hpl
-        cases h
-        have h3 := idx_st_alloc hf hi .symbol x.uuid
-          (fun y => if y = g.n then x.name else (alloc g .symbol x.uuid).1.name y)
-          (fun y => if y = g.n then pl else (alloc g .symbol x.uuid).1.payload y)
-          (fun y hy => if_neg hy) (fun y hy => if_neg hy)
-        exact idx_of_oc (idx_oc_cacheSet _ _ _ _) h3.1
+      exact L.alloc_reg hm hp .proxy (by decide) _ _
 
 /-- the shape of the per-element hypotheses below -/
 abbrev DecSpec {α : Type} (g0 : G) (k : Nat) (K : Kind → Prop) (f : G → α → Except LErr (G × Nat)) : Prop :=
   ∀ (R : Nat → Prop) g a g' v, Mid g0 g → AllCov g0.n g R → f g a = .ok (g', v) → DecOk g0 k K R g g' v
 
-abbrev DecIdx {α : Type} (g0 : G) (f : G → α → Except LErr (G × Nat)) : Prop :=
-  ∀ (R : Nat → Prop) g a g' v, Mid g0 g → AllCov g0.n g R → IndexInv g → f g a = .ok (g', v) → IndexInv g'
+abbrev DecInv {α : Type} (g0 : G) (P : G → Prop) (f : G → α → Except LErr (G × Nat)) : Prop :=
+  ∀ (R : Nat → Prop) g a g' v, Mid g0 g → AllCov g0.n g R → P g → f g a = .ok (g', v) → P g'
 
-theorem decodeList_idx {α : Type} {f : G → α → Except LErr (G × Nat)} {g0 : G} {k : Nat} {K : Kind → Prop}
-    (hf : DecSpec g0 k K f) (hfi : DecIdx g0 f) :
-    ∀ (as : List α) (R : Nat → Prop) (g g' : G) (vs : List Nat), Mid g0 g → AllCov g0.n g R → IndexInv g →
-      decodeList f g as = .ok (g', vs) → IndexInv g' := by
+theorem decodeList_keeps {α : Type} {f : G → α → Except LErr (G × Nat)} {g0 : G} {P : G → Prop} {k : Nat}
+    {K : Kind → Prop} (hf : DecSpec g0 k K f) (hfi : DecInv g0 P f) :
+    ∀ (as : List α) (R : Nat → Prop) (g g' : G) (vs : List Nat), Mid g0 g → AllCov g0.n g R → P g →
+      decodeList f g as = .ok (g', vs) → P g' := by
   intro as
   induction as with
   | nil => intro R g g' vs _ _ hi h; cases h; exact hi
@@ -141,8 +127,9 @@ theorem decodeList_idx {α : Type} {f : G → α → Except LErr (G × Nat)} {g0
         cases h
         exact this
 
-theorem decodeInterval_idx {g0 : G} (R : Nat → Prop) (g : G) (x : SkInterval) (g' : G) (v : Nat) (hm : Mid g0 g)
-    (hc : AllCov g0.n g R) (hi : IndexInv g) (h : decodeInterval g g0.n x = .ok (g', v)) : IndexInv g' := by
+theorem decodeInterval_keeps {g0 : G} {S : SkSymbol → Prop} {P : G → Prop} (L : LoadInv g0 S P) (R : Nat → Prop) (g : G) (x : SkInterval)
+    (g' : G) (v : Nat) (hm : Mid g0 g) (hc : AllCov g0.n g R) (hi : P g)
+    (h : decodeInterval g g0.n x = .ok (g', v)) : P g' := by
   unfold decodeInterval at h
   split at h
   · cases h
@@ -160,34 +147,34 @@ theorem decodeInterval_idx {g0 : G} (R : Nat → Prop) (g : G) (x : SkInterval) 
           cases h
           have hm1 : Mid g0 (alloc g .interval x.uuid).1 := hm.of_alloc _ _ (by decide) (by decide)
           have hc1 := AllCov.alloc' hm hc .interval x.uuid rfl rfl
-          have hi1 : IndexInv (alloc g .interval x.uuid).1 := (idx_st_alloc_plain hm.forest hi _ _).1
+          have hi1 : P (alloc g .interval x.uuid).1 := L.onAlloc _ _ _ hm (by decide) hi
           rw [decodeBlocks_eq] at hbs
           have d := decodeList_ok (fun R g a g' v => decodeBlock_ok R g a g' v) _ _ _ _ _ hm1 hc1 hbs
-          have hi2 : IndexInv g2 :=
-            decodeList_idx (fun R g a g' v => decodeBlock_ok R g a g' v)
-              (fun _ g _ _ _ hm' _ hi' hh => decodeBlock_idx hm'.forest hi' hh) _ _ _ _ _ hm1 hc1 hi1 hbs
-          have hi3 : IndexInv g3 := (idx_st_blkUpdate (idxSt_of d.mid.forest hi2) (liftE_ok hblk)).1
-          exact idx_of_oc (idx_oc_cacheAddInterval _ _ _) hi3
+          have hi2 : P g2 :=
+            decodeList_keeps (fun R g a g' v => decodeBlock_ok R g a g' v)
+              (fun _ g _ _ _ hm' _ hi' hh => decodeBlock_keeps L hm' hi' hh) _ _ _ _ _ hm1 hc1 hi1 hbs
+          have hi3 : P g3 := L.onBlkUpdate _ _ _ _ d.mid hi2 (liftE_ok hblk)
+          exact L.onCache _ _ (idx_oc_cacheAddInterval _ _ _) hi3
 
 theorem decodeAttach_one {α : Type} {dec : G → Nat → α → Except LErr (G × Nat)} {i p : Nat} {s : Slot}
     {g g1 g2 : G} {a : α} {v : Nat} (h1 : dec g i a = .ok (g1, v)) (h2 : liftE (setAdd g1 p s v) = .ok g2) :
     decodeAttach dec i p s g [a] = .ok g2 := by
   simp only [decodeAttach, h1, h2]
 
-/-- `decodeAttach` keeps `IndexInv`: each child is decoded (`hfi`) and added through the wrapper's `add`,
-whose index hooks are those of the public API (`idx_st_setAdd`) -/
-theorem decodeAttach_idx {α : Type} {dec : G → Nat → α → Except LErr (G × Nat)} {g0 : G} {k : Nat}
-    {K : Kind → Prop} {p : Nat} {s : Slot} {kp : Kind}
-    (hf : DecSpec g0 k K (fun g a => dec g g0.n a)) (hfi : DecIdx g0 (fun g a => dec g g0.n a))
+/-- `decodeAttach` keeps `P`: each child is decoded (`hfi`) and added through the wrapper's `add` -/
+theorem decodeAttach_keeps {α : Type} {dec : G → Nat → α → Except LErr (G × Nat)} {g0 : G} {S : SkSymbol → Prop}
+    {P : G → Prop} (L : LoadInv g0 S P) {k : Nat} {K : Kind → Prop} {p : Nat} {s : Slot} {kp : Kind}
+    (hf : DecSpec g0 k K (fun g a => dec g g0.n a)) (Q : α → Prop)
+    (hfi : ∀ (R : Nat → Prop) g a g' v, Q a → Mid g0 g → AllCov g0.n g R → P g → dec g g0.n a = .ok (g', v) → P g')
     (hp0 : g0.n ≤ p) (hkp : kp ≠ .ir) (hrk : cache_rank kp ≤ k)
     (hK : ∀ kd, K kd → slotOf kd = some s ∧ parentKind kd = some kp) :
-    ∀ (as : List α) (R : Nat → Prop) (g g' : G), Mid g0 g → AllCov g0.n g R → R p → p < g.n →
-      g.par p = none → g.kind p = kp → IndexInv g → decodeAttach dec g0.n p s g as = .ok g' → IndexInv g' := by
+    ∀ (as : List α) (R : Nat → Prop) (g g' : G), (∀ a, a ∈ as → Q a) → Mid g0 g → AllCov g0.n g R → R p → p < g.n →
+      g.par p = none → g.kind p = kp → P g → decodeAttach dec g0.n p s g as = .ok g' → P g' := by
   intro as
   induction as with
-  | nil => intro R g g' _ _ _ _ _ _ hi h; cases h; exact hi
+  | nil => intro R g g' _ _ _ _ _ _ _ hi h; cases h; exact hi
   | cons a as ih =>
-    intro R g g' hm hc hRp hpn hpp hkind hi h
+    intro R g g' hQ hm hc hRp hpn hpp hkind hi h
     simp only [decodeAttach] at h
     split at h
     · cases h
@@ -196,16 +183,17 @@ theorem decodeAttach_idx {α : Type} {dec : G → Nat → α → Except LErr (G 
       · cases h
       · rename_i g2 h2
         have d1 := hf R g a g1 v hm hc h1
-        have hi1 : IndexInv g1 := hfi R g a g1 v hm hc hi h1
-        have hi2 : IndexInv g2 :=
-          (idx_st_setAdd (idxSt_of d1.mid.forest hi1) (hK _ d1.kind).1 (liftE_ok h2)).1
+        have hi1 : P g1 := hfi R g a g1 v (hQ a List.mem_cons_self) hm hc hi h1
+        have hi2 : P g2 := L.onSetAdd _ _ _ _ _ d1.mid (hK _ d1.kind).1 hi1 (liftE_ok h2)
         obtain ⟨m2, c2, st⟩ := decodeAttach_ok hf hp0 hkp hrk hK [a] R g g2 hm hc hRp hpn hpp hkind
           (decodeAttach_one h1 h2)
         obtain ⟨q1, q2, q3⟩ := st.keep hpn (by rw [hkind]; exact Nat.le_refl _)
-        exact ih R g2 g' m2 c2 hRp q1 (q2.trans hpp) (q3.trans hkind) hi2 h
+        exact ih R g2 g' (fun b hb => hQ b (List.mem_cons_of_mem _ hb)) m2 c2 hRp q1 (q2.trans hpp)
+          (q3.trans hkind) hi2 h
 
-theorem decodeSection_idx {g0 : G} (R : Nat → Prop) (g : G) (x : SkSection) (g' : G) (v : Nat) (hm : Mid g0 g)
-    (hc : AllCov g0.n g R) (hi : IndexInv g) (h : decodeSection g g0.n x = .ok (g', v)) : IndexInv g' := by
+theorem decodeSection_keeps {g0 : G} {S : SkSymbol → Prop} {P : G → Prop} (L : LoadInv g0 S P) (R : Nat → Prop) (g : G) (x : SkSection)
+    (g' : G) (v : Nat) (hm : Mid g0 g) (hc : AllCov g0.n g R) (hi : P g)
+    (h : decodeSection g g0.n x = .ok (g', v)) : P g' := by
   unfold decodeSection at h
   split at h
   · cases h
@@ -219,18 +207,18 @@ theorem decodeSection_idx {g0 : G} (R : Nat → Prop) (g : G) (x : SkSection) (g
       · rename_i g4 hatt
         cases h
         obtain ⟨a1, a2, _⟩ := fresh_reg hm hc .section x.uuid (by decide) (by decide)
-        exact decodeAttach_idx (s := .bis) (kp := .section) (k := 3) (K := fun kd => kd = .interval)
-          (fun R g a g' v => decodeInterval_ok R g a g' v) (fun R g a g' v => decodeInterval_idx R g a g' v)
+        exact decodeAttach_keeps L (s := .bis) (kp := .section) (k := 3) (K := fun kd => kd = .interval)
+          (fun R g a g' v => decodeInterval_ok R g a g' v) (fun _ => True)
+          (fun R g a g' v _ => decodeInterval_keeps L R g a g' v)
           (Nat.le_of_lt hm.lt) (by decide) (by decide)
-          (by intro kd hkd; subst hkd; exact ⟨rfl, rfl⟩) _ _ _ _ a1 a2 (.inr rfl) (Nat.lt_succ_self _)
+          (by intro kd hkd; subst hkd; exact ⟨rfl, rfl⟩) _ _ _ _ (fun _ _ => trivial) a1 a2 (.inr rfl) (Nat.lt_succ_self _)
           (by show (alloc g .section x.uuid).1.par g.n = _; simp)
           (by show (alloc g .section x.uuid).1.kind g.n = _; simp)
-          (idx_alloc_reg hm.forest hi _ _ _) hatt
+          (L.alloc_reg hm hi .section (by decide) _ _) hatt
 
-/-- the states of a module message that is really decoded: `g2` registered, `g4` proxies added,
-`g6` sections added (the entry point is resolved here), `g8` symbols added (the symbols of the
-expressions are resolved here) -/
-structure ModStages (g0 g : G) (R : Nat → Prop) (g4 g6 g8 : G) : Prop where
+/-- the states of a module message that is really decoded: `g4` proxies added, `g6` sections added (the
+entry point is resolved here), `g8` symbols added (the symbols of the expressions are resolved here) -/
+structure ModStages (g0 g : G) (R : Nat → Prop) (mu : Nat) (g4 g6 g8 : G) : Prop where
   mid4 : Mid g0 g4
   cov4 : AllCov g0.n g4 (fun r => R r ∨ r = g.n)
   at4 : g.n < g4.n ∧ g4.par g.n = none ∧ g4.kind g.n = .module
@@ -242,12 +230,14 @@ structure ModStages (g0 g : G) (R : Nat → Prop) (g4 g6 g8 : G) : Prop where
   at8 : g.n < g8.n ∧ g8.kind g.n = .module
   grows68 : Grows g6 g8
   grows08 : Grows g g8
+  uuid8 : g8.uuid g.n = mu
 
 theorem modStages {g0 g : G} {R : Nat → Prop} (hm : Mid g0 g) (hc : AllCov g0.n g R) (m : SkModule) {g4 g6 g8 : G}
     (hat4 : decodeAttach decodeProxy g0.n g.n .proxies (cacheSet (alloc g .module m.uuid).1 g0.n m.uuid g.n)
       m.proxies = .ok g4)
     (hat6 : decodeAttach decodeSection g0.n g.n .secs g4 m.sections = .ok g6)
-    (hat8 : decodeAttach decodeSymbol g0.n g.n .syms g6 m.symbols = .ok g8) : ModStages g0 g R g4 g6 g8 := by
+    (hat8 : decodeAttach decodeSymbol g0.n g.n .syms g6 m.symbols = .ok g8) :
+    ModStages g0 g R m.uuid g4 g6 g8 := by
   obtain ⟨a1, a2, a3⟩ := fresh_reg hm hc .module m.uuid (by decide) (by decide)
   have hM0 : g0.n ≤ g.n := Nat.le_of_lt hm.lt
   have hM2 : g.n < (cacheSet (alloc g .module m.uuid).1 g0.n m.uuid g.n).n := Nat.lt_succ_self _
@@ -255,6 +245,8 @@ theorem modStages {g0 g : G} {R : Nat → Prop} (hm : Mid g0 g) (hc : AllCov g0.
     show (alloc g .module m.uuid).1.kind g.n = _; simp
   have hp2 : (cacheSet (alloc g .module m.uuid).1 g0.n m.uuid g.n).par g.n = none := by
     show (alloc g .module m.uuid).1.par g.n = _; simp
+  have hu2 : (cacheSet (alloc g .module m.uuid).1 g0.n m.uuid g.n).uuid g.n = m.uuid := by
+    show (alloc g .module m.uuid).1.uuid g.n = _; simp
   obtain ⟨m4, c4, s24⟩ := decodeAttach_ok (s := .proxies) (kp := .module) (k := 4)
     (K := fun kd => kd = .proxy)
     (fun R g a g' v => decodeProxy_ok R g a g' v) hM0 (by decide) (by decide)
@@ -276,11 +268,13 @@ theorem modStages {g0 g : G} {R : Nat → Prop} (hm : Mid g0 g) (hc : AllCov g0.
   have s68' : Step 1 g6 g8 := s68
   obtain ⟨hM8, _, hk8⟩ := s68'.keep hM6 (by rw [hk6]; decide)
   rw [hk6] at hk8
+  have g28 := s24'.grows.trans (s46'.grows.trans s68'.grows)
   exact ⟨m4, c4, ⟨hM4, hp4, hk4⟩, m6, c6, ⟨hM6, hp6, hk6⟩, m8, c8, ⟨hM8, hk8⟩, s68'.grows,
-    a3.grows.trans (s24'.grows.trans (s46'.grows.trans s68'.grows))⟩
+    a3.grows.trans g28, by rw [(g28.2 g.n hM2).2]; exact hu2⟩
 
-theorem decodeModule_idx {g0 : G} (R : Nat → Prop) (g : G) (m : SkModule) (g' : G) (v : Nat) (hm : Mid g0 g)
-    (hc : AllCov g0.n g R) (hi : IndexInv g) (h : decodeModule g g0.n m = .ok (g', v)) : IndexInv g' := by
+theorem decodeModule_keeps {g0 : G} {S : SkSymbol → Prop} {P : G → Prop} (L : LoadInv g0 S P) (R : Nat → Prop) (g : G) (m : SkModule)
+    (g' : G) (v : Nat) (hS : ∀ x, x ∈ m.symbols → S x) (hm : Mid g0 g) (hc : AllCov g0.n g R) (hi : P g)
+    (h : decodeModule g g0.n m = .ok (g', v)) : P g' := by
   unfold decodeModule at h
   split at h
   · cases h
@@ -306,34 +300,35 @@ theorem decodeModule_idx {g0 : G} (R : Nat → Prop) (g : G) (m : SkModule) (g' 
                 have st := modStages hm hc m hat4 hat6 hat8
                 obtain ⟨a1, a2, _⟩ := fresh_reg hm hc .module m.uuid (by decide) (by decide)
                 have hM0 : g0.n ≤ g.n := Nat.le_of_lt hm.lt
-                have hi2 := idx_alloc_reg hm.forest hi .module m.uuid g0.n
-                have hi4 : IndexInv g4 :=
-                  decodeAttach_idx (s := .proxies) (kp := .module) (k := 4) (K := fun kd => kd = .proxy)
-                    (fun R g a g' v => decodeProxy_ok R g a g' v)
-                    (fun _ g _ _ _ hm' _ hi' hh => decodeProxy_idx hm'.forest hi' hh) hM0 (by decide) (by decide)
-                    (by intro kd hkd; subst hkd; exact ⟨rfl, rfl⟩) _ _ _ _ a1 a2 (.inr rfl) (Nat.lt_succ_self _)
+                have hi2 := L.alloc_reg hm hi .module (by decide) m.uuid g0.n
+                have hi4 : P g4 :=
+                  decodeAttach_keeps L (s := .proxies) (kp := .module) (k := 4) (K := fun kd => kd = .proxy)
+                    (fun R g a g' v => decodeProxy_ok R g a g' v) (fun _ => True)
+                    (fun _ g _ _ _ _ hm' _ hi' hh => decodeProxy_keeps L hm' hi' hh) hM0 (by decide) (by decide)
+                    (by intro kd hkd; subst hkd; exact ⟨rfl, rfl⟩) _ _ _ _ (fun _ _ => trivial) a1 a2 (.inr rfl) (Nat.lt_succ_self _)
                     (by show (alloc g .module m.uuid).1.par g.n = _; simp)
                     (by show (alloc g .module m.uuid).1.kind g.n = _; simp) hi2 hat4
-                have hi6 : IndexInv g6 :=
-                  decodeAttach_idx (s := .secs) (kp := .module) (k := 2) (K := fun kd => kd = .section)
-                    (fun R g a g' v => decodeSection_ok R g a g' v)
-                    (fun R g a g' v => decodeSection_idx R g a g' v) hM0 (by decide) (by decide)
-                    (by intro kd hkd; subst hkd; exact ⟨rfl, rfl⟩) _ _ _ _ st.mid4 st.cov4 (.inr rfl)
+                have hi6 : P g6 :=
+                  decodeAttach_keeps L (s := .secs) (kp := .module) (k := 2) (K := fun kd => kd = .section)
+                    (fun R g a g' v => decodeSection_ok R g a g' v) (fun _ => True)
+                    (fun R g a g' v _ => decodeSection_keeps L R g a g' v) hM0 (by decide) (by decide)
+                    (by intro kd hkd; subst hkd; exact ⟨rfl, rfl⟩) _ _ _ _ (fun _ _ => trivial) st.mid4 st.cov4 (.inr rfl)
                     st.at4.1 st.at4.2.1 st.at4.2.2 hi4 hat6
                 exact
-                  decodeAttach_idx (s := .syms) (kp := .module) (k := 4) (K := fun kd => kd = .symbol)
-                    (fun R g a g' v => decodeSymbol_ok R g a g' v)
-                    (fun _ g _ _ _ hm' _ hi' hh => decodeSymbol_idx hm'.forest hi' hh) hM0 (by decide) (by decide)
-                    (by intro kd hkd; subst hkd; exact ⟨rfl, rfl⟩) _ _ _ _ st.mid6 st.cov6 (.inr rfl)
+                  decodeAttach_keeps L (s := .syms) (kp := .module) (k := 4) (K := fun kd => kd = .symbol)
+                    (fun R g a g' v => decodeSymbol_ok R g a g' v) S
+                    (fun _ g _ _ _ hs' hm' _ hi' hh => L.onSymbol _ _ _ _ hs' hm' hi' hh) hM0 (by decide) (by decide)
+                    (by intro kd hkd; subst hkd; exact ⟨rfl, rfl⟩) _ _ _ _ hS st.mid6 st.cov6 (.inr rfl)
                     st.at6.1 st.at6.2.1 st.at6.2.2 hi6 hat8
 
-theorem decodeModules_idx {g0 : G} : ∀ (ms : List SkModule) (g g' : G), Mid g0 g → AllAtt g0 g → IndexInv g →
-    decodeModules g0.n g ms = .ok g' → IndexInv g' := by
+theorem decodeModules_keeps {g0 : G} {S : SkSymbol → Prop} {P : G → Prop} (L : LoadInv g0 S P) : ∀ (ms : List SkModule) (g g' : G),
+    (∀ md, md ∈ ms → ∀ x, x ∈ md.symbols → S x) → Mid g0 g → AllAtt g0 g → P g →
+    decodeModules g0.n g ms = .ok g' → P g' := by
   intro ms
   induction ms with
-  | nil => intro g g' _ _ hi h; cases h; exact hi
+  | nil => intro g g' _ _ _ hi h; cases h; exact hi
   | cons m ms ih =>
-    intro g g' hm ha hi h
+    intro g g' hS hm ha hi h
     simp only [decodeModules] at h
     split at h
     · cases h
@@ -342,15 +337,15 @@ theorem decodeModules_idx {g0 : G} : ∀ (ms : List SkModule) (g g' : G), Mid g0
       · cases h
       · rename_i g2 happ
         have d := decodeModule_ok _ g m g1 v hm (ha.cov hm) hdm
-        have hi1 := decodeModule_idx _ g m g1 v hm (ha.cov hm) hi hdm
+        have hi1 := decodeModule_keeps L _ g m g1 v (hS m List.mem_cons_self) hm (ha.cov hm) hi hdm
         obtain ⟨m2, a2⟩ := modAppend_outer d.mid d.new d.lt d.kind d.cov (liftE_ok happ)
-        have hi2 : IndexInv g2 := (idx_st_modAppend (idxSt_of d.mid.forest hi1) (liftE_ok happ)).1
-        exact ih g2 g' m2 a2 hi2 h
+        have hi2 : P g2 := L.onModAppend _ _ _ d.mid hi1 (liftE_ok happ)
+        exact ih g2 g' (fun md hmd => hS md (List.mem_cons_of_mem _ hmd)) m2 a2 hi2 h
 
-/-- the symbol indexes of every module of the process (`_symbol_name_index`, `_symbol_referent_index`) equal
-the scan after a load, whatever the message (duplicated UUIDs, re-used and moved symbols included) -/
-theorem load_indexInv {g g' : G} {m : SkIR} {ir : Nat} (hf : ForestInv g) (hi : IndexInv g)
-    (hl : load g m = .ok (g', ir)) : IndexInv g' := by
+/-- a predicate kept by every elementary step and true after `IR.__init__` holds in the loaded state -/
+theorem load_keeps {g g' : G} {S : SkSymbol → Prop} {P : G → Prop} (L : LoadInv g S P) {m : SkIR} {ir : Nat}
+    (hS : ∀ md, md ∈ m.modules → ∀ x, x ∈ md.symbols → S x) (hf : ForestInv g)
+    (h0 : P (mkIR g m.uuid)) (hl : load g m = .ok (g', ir)) : P g' := by
   unfold load at hl
   simp only [] at hl
   split at hl
@@ -360,9 +355,55 @@ theorem load_indexInv {g g' : G} {m : SkIR} {ir : Nat} (hf : ForestInv g) (hi : 
     · cases hl
     · cases hl
       obtain ⟨m1, a1⟩ := mid_mkIR hf m.uuid
-      have hi1 : IndexInv (mkIR g m.uuid) :=
-        (idx_st_oc (idx_oc_mkIR g m.uuid) (idx_st_alloc_plain hf hi .ir m.uuid)).1
-      exact decodeModules_idx m.modules _ _ m1 a1 hi1 hdm
+      exact decodeModules_keeps L m.modules _ _ hS m1 a1 h0 hdm
+
+/-! ### the symbol indexes through the load -/
+
+theorem idx_of_oc {g g' : G} (h : IdxOC g g') (hi : IndexInv g) : IndexInv g' := by
+  obtain ⟨c, rfl⟩ := h
+  exact ⟨hi.name_iff, hi.ref_iff, hi.name_nodup, hi.ref_nodup⟩
+
+theorem idxSt_of {g : G} (hf : ForestInv g) (hi : IndexInv g) : IdxSt g.kind g :=
+  ⟨hi, idx_side_of_forest hf, rfl⟩
+
+/-- `Symbol._from_protobuf`: name and payload of the fresh, still detached symbol are written directly;
+no index can contain it yet -/
+theorem decodeSymbol_idx {g g' : G} {i : Nat} {x : SkSymbol} {v : Nat} (hf : ForestInv g) (hi : IndexInv g)
+    (h : decodeSymbol g i x = .ok (g', v)) : IndexInv g' := by
+  unfold decodeSymbol at h
+  split at h
+  · cases h
+  · rename_i g1 v1 fresh hfp
+    rcases fromProto_cases hfp with ⟨rfl, rfl, _, _⟩ | ⟨rfl, rfl, rfl, _⟩
+    · simp only [Bool.not_false, if_true] at h
+      cases h; exact hi
+    · simp only [Bool.not_true, Bool.false_eq_true, if_false] at h
+      split at h
+      · cases h
+      · rename_i pl hpl
+        cases h
+        have h3 := idx_st_alloc hf hi .symbol x.uuid
+          (fun y => if y = g.n then x.name else (alloc g .symbol x.uuid).1.name y)
+          (fun y => if y = g.n then pl else (alloc g .symbol x.uuid).1.payload y)
+          (fun y hy => if_neg hy) (fun y hy => if_neg hy)
+        exact idx_of_oc (idx_oc_cacheSet _ _ _ _) h3.1
+
+/-- every elementary step of the loader keeps the symbol indexes exact: fresh nodes are in no collection; the
+wrappers' `add` runs the index hooks of the public API; a fresh symbol gets name and payload while detached -/
+theorem loadInv_index (g0 : G) : LoadInv g0 (fun _ => True) IndexInv where
+  onAlloc := fun _ k u hm _ hi => (idx_st_alloc_plain hm.forest hi k u).1
+  onCache := fun _ _ h hi => idx_of_oc h hi
+  onSetAdd := fun _ _ _ _ _ hm hs hi h => (idx_st_setAdd (idxSt_of hm.forest hi) hs h).1
+  onBlkUpdate := fun _ _ _ _ hm hi h => (idx_st_blkUpdate (idxSt_of hm.forest hi) h).1
+  onModAppend := fun _ _ _ hm hi h => (idx_st_modAppend (idxSt_of hm.forest hi) h).1
+  onSymbol := fun _ _ _ _ _ hm hi h => decodeSymbol_idx hm.forest hi h
+
+/-- the symbol indexes of every module of the process (`_symbol_name_index`, `_symbol_referent_index`) equal
+the scan after a load, whatever the message (duplicated UUIDs, re-used and moved symbols included) -/
+theorem load_indexInv {g g' : G} {m : SkIR} {ir : Nat} (hf : ForestInv g) (hi : IndexInv g)
+    (hl : load g m = .ok (g', ir)) : IndexInv g' :=
+  load_keeps (loadInv_index g) (fun _ _ _ _ => trivial) hf
+    (idx_st_oc (idx_oc_mkIR g m.uuid) (idx_st_alloc_plain hf hi .ir m.uuid)).1 hl
 
 /-! ### C03: the load clause -/
 
